@@ -345,4 +345,21 @@ example : shouldCombine { id := 1, btype := 2, ctxs := [⟨1, 0, 0⟩], group :=
     shouldCombine { id := 1, btype := 2, ctxs := [⟨1, 0, 3⟩], group := 3 } = true ∧
     shouldCombine { id := 1, btype := 2, ctxs := [⟨1, 1, 0⟩] } = true := by decide
 
+/-! ### A run that is not a queue task merges nothing
+
+The admission and conversion handlers run a hook through `taskHandleHookRun` with a task that is in
+no queue and names none; the queue pointer is `GetByName` of that name: nil. -/
+
+/-- `taskHandleHookRun`'s call `combineBindingContextForHook(tqs, tqs.GetByName(t.GetQueueName()), t, …)`
+for a task whose queue name is no queue of the set: nothing is merged, every queue is left as it is
+(whatever the queues hold — tasks of the same hook at their heads included). -/
+theorem not_a_queue_task_merges_nothing (qs : QSet) (t : Task) (stop : Option (Task → Bool))
+    (env : QSet → QSet) (h : qs.get t.queue = none) :
+    combineGo qs ((qs.get t.queue).map fun _ => t.queue) t stop env = (.nil, qs) ∧
+    combineTwin qs ((qs.get t.queue).map fun _ => t.queue) t stop env = (.nil, qs) := by
+  simp [combineGo, combineTwin, h]
+
+example : QSet.get [(1, [{ id := 5, hook := 1 }, { id := 6, hook := 1 }])]
+    ({ id := 9, hook := 1, queue := 0 } : Task).queue = none := by decide
+
 end ShellOp.Combine.C07
